@@ -78,42 +78,44 @@ example : ((readCharCGo [] [[0xE2], [0x82], [], [0xAC, 10]]).1,
            (readCharCGo [] [[0xE2], [0x82], [], [0xAC, 10]]).2.flatten) = (.char 0x20AC, [10]) :=
   (read_char_chunking_irrelevant [[0xE2], [0x82], [], [0xAC, 10]] []).1.trans (by decide)
 
-/-- ★ `chunking_irrelevant` for the `read` built-in's reader: over any chunking of the same bytes `read`
+/-- ★ `chunking_irrelevant` for the `read` built-in's reader, for every delimiter `d` (`-d`, a single
+    byte, newline by default) and with or without `-r`: over any chunking of the same bytes `read`
     delivers the same characters (with their quoting), ends the same way and leaves the same bytes;
-    when it found its delimiter it consumed a prefix of the stream ending with that newline — for
-    `read -r` exactly the first line of the stream, newline included, nothing of the next line. -/
-theorem read_chunking_irrelevant (raw : Bool) (cs ds : List (List Byte)) :
-    ((readLineCGo raw false [] cs []).1, (readLineCGo raw false [] cs []).2.1,
-        (readLineCGo raw false [] cs []).2.2.flatten) = readLine raw cs.flatten []
+    when it found its delimiter it consumed a prefix of the stream ending with the delimiter byte —
+    for `read -r` with the default delimiter exactly the first line of the stream, newline included,
+    nothing of the next line. -/
+theorem read_chunking_irrelevant (d : Nat) (hd : d < 128) (raw : Bool) (cs ds : List (List Byte)) :
+    ((readLineCGo d raw false [] cs []).1, (readLineCGo d raw false [] cs []).2.1,
+        (readLineCGo d raw false [] cs []).2.2.flatten) = readLine d raw cs.flatten []
     ∧ (cs.flatten = ds.flatten →
-        (readLineCGo raw false [] cs []).1 = (readLineCGo raw false [] ds []).1
-        ∧ (readLineCGo raw false [] cs []).2.1 = (readLineCGo raw false [] ds []).2.1
-        ∧ (readLineCGo raw false [] cs []).2.2.flatten = (readLineCGo raw false [] ds []).2.2.flatten)
-    ∧ ((readLineCGo raw false [] cs []).2.1 = .found →
-        ∃ pre, pre ++ (readLineCGo raw false [] cs []).2.2.flatten = cs.flatten
-          ∧ pre.getLast? = some NL
-          ∧ (raw = true → pre = (nextLine cs.flatten).1
-                          ∧ (readLineCGo raw false [] cs []).2.2.flatten = (nextLine cs.flatten).2)) := by
-  have e1 := readLineCGo_eq raw false [] cs []
+        (readLineCGo d raw false [] cs []).1 = (readLineCGo d raw false [] ds []).1
+        ∧ (readLineCGo d raw false [] cs []).2.1 = (readLineCGo d raw false [] ds []).2.1
+        ∧ (readLineCGo d raw false [] cs []).2.2.flatten = (readLineCGo d raw false [] ds []).2.2.flatten)
+    ∧ ((readLineCGo d raw false [] cs []).2.1 = .found →
+        ∃ pre bl, pre ++ (readLineCGo d raw false [] cs []).2.2.flatten = cs.flatten
+          ∧ pre.getLast? = some bl ∧ bl.toNat = d
+          ∧ (raw = true → d = 10 → pre = (nextLine cs.flatten).1
+                          ∧ (readLineCGo d raw false [] cs []).2.2.flatten = (nextLine cs.flatten).2)) := by
+  have e1 := readLineCGo_eq d raw false [] cs []
   refine ⟨e1, ?_, ?_⟩
   · intro h
-    have e2 := readLineCGo_eq raw false [] ds []
+    have e2 := readLineCGo_eq d raw false [] ds []
     rw [h] at e1
     rw [← e2] at e1
     simp only [Prod.mk.injEq] at e1
     exact e1
   · intro hf
-    have hrl : readLineGo raw false [] cs.flatten []
-        = ((readLineCGo raw false [] cs []).1, .found, (readLineCGo raw false [] cs []).2.2.flatten) := by
+    have hrl : readLineGo d raw false [] cs.flatten []
+        = ((readLineCGo d raw false [] cs []).1, .found, (readLineCGo d raw false [] cs []).2.2.flatten) := by
       rw [← e1, hf]
-    obtain ⟨pre, h1, h2⟩ := readLineGo_line raw false [] cs.flatten [] _ _ hrl
-    refine ⟨pre, h1, h2, ?_⟩
-    intro hraw
-    subst hraw
+    obtain ⟨pre, bl, h1, h2, h3⟩ := readLineGo_line d hd raw false [] cs.flatten [] _ _ hrl
+    refine ⟨pre, bl, h1, h2, h3, ?_⟩
+    intro hraw hd10
+    subst hraw; subst hd10
     obtain ⟨pre', h1', h2', h3'⟩ := readLineGo_raw_line [] cs.flatten [] _ _ hrl
     have hpp : pre' = pre := List.append_cancel_right (h1'.trans h1.symm)
     subst hpp
-    have := splitLine_unique pre' (readLineCGo true false [] cs []).2.2.flatten h2' h3'
+    have := splitLine_unique pre' (readLineCGo 10 true false [] cs []).2.2.flatten h2' h3'
     rw [h1'] at this
     rw [nextLine_eq, this]
     exact ⟨rfl, rfl⟩
@@ -218,33 +220,42 @@ theorem lazy_prefix (n : Nat) (s : State) (log : List Iter) (h : ∀ it ∈ log,
     · exact hnew
     · exact hnew
     · split
-      · exact ih _ _ hnew
+      · split
+        · exact hnew
+        · exact ih _ _ hnew
       · exact hnew
 
 /-- the command of an iteration runs in the state `atExec s`, whose script descriptor stands right
     after the pulled text with the shared offset advanced by exactly the pulled bytes and nothing else
     changed, and it runs before the loop pulls anything else -/
 theorem command_sees_next_line (n : Nat) (s : State) (log : List Iter) (cs : List Cmd)
-    (bodies : List (List Char)) (h : (pullOf s).res = .ok cs bodies) :
+    (h : (pullOf s).res = .ok cs) :
     (atExec s).inp = (pullOf s).rest
       ∧ (s.shared = true → (atExec s).pos = s.pos + (pullOf s).text.length)
       ∧ (atExec s).out = s.out ∧ (atExec s).aliases = s.aliases ∧ (atExec s).vars = s.vars
       ∧ loop (n + 1) s log =
-          if (runK bodies execFuel (cmds cs) (atExec s)).2
-          then loop n (runK bodies execFuel (cmds cs) (atExec s)).1 (log ++ [iterOf s])
-          else ((runK bodies execFuel (cmds cs) (atExec s)).1, .outOfFuel, log ++ [iterOf s]) := by
+          if (runK execFuel (cmds cs) (atExec s)).2
+          then (if (runK execFuel (cmds cs) (atExec s)).1.aborted
+                then ((runK execFuel (cmds cs) (atExec s)).1, .syntaxError, log ++ [iterOf s])
+                else loop n (runK execFuel (cmds cs) (atExec s)).1 (log ++ [iterOf s]))
+          else ((runK execFuel (cmds cs) (atExec s)).1, .outOfFuel, log ++ [iterOf s]) := by
   refine ⟨rfl, fun hs => by simp [atExec, afterPull, hs], rfl, rfl, rfl, ?_⟩
   simp only [loop, h]
 
 /-- a command never depends on input it did not reach: with `S` appended after the cursor the
     execution is the same, `S` still after the cursor — unless a reader met the end of the input -/
-theorem frame_exec (bodies : List (List Char)) (n : Nat) (k : List K) (s : State) (S : List Byte)
-    (he : (runK bodies n k s).1.hitEof = false) :
-    runK bodies n k (s.app S) = ((runK bodies n k s).1.app S, (runK bodies n k s).2) :=
-  runK_app bodies n k s S he
+theorem frame_exec (n : Nat) (k : List K) (s : State) (S : List Byte)
+    (he : (runK n k s).1.hitEof = false) :
+    runK n k (s.app S) = ((runK n k s).1.app S, (runK n k s).2) :=
+  runK_app n k s S he
+
+theorem echoOf_grows (s : State) (text : List Byte) : ∃ e, echoOf s text = s.echo ++ e := by
+  unfold echoOf; split
+  · exact ⟨_, rfl⟩
+  · exact ⟨[], by simp⟩
 
 theorem atExec_grows (s : State) : Grows s (atExec s) :=
-  ⟨⟨[], rfl⟩, fun h => by simp [atExec, h]⟩
+  ⟨⟨[], rfl⟩, fun h => by simp [atExec, h], echoOf_grows s _⟩
 
 theorem loop_grows (n : Nat) (s : State) (log : List Iter) : Grows s (loop n s log).1 := by
   induction n generalizing s log with
@@ -252,12 +263,14 @@ theorem loop_grows (n : Nat) (s : State) (log : List Iter) : Grows s (loop n s l
   | succ n ih =>
     simp only [loop]
     split
-    · exact grows_of_eq rfl rfl
-    · exact grows_of_eq rfl rfl
-    · exact grows_of_eq rfl rfl
+    · exact ⟨⟨[], rfl⟩, fun h => by simp [h], echoOf_grows s _⟩
+    · exact ⟨⟨[], rfl⟩, id, echoOf_grows s _⟩
+    · exact ⟨⟨[], rfl⟩, id, echoOf_grows s _⟩
     · split
-      · exact (atExec_grows s).trans ((runK_grows _ _ _ _).trans (ih _ _))
-      · exact (atExec_grows s).trans (runK_grows _ _ _ _)
+      · split
+        · exact (atExec_grows s).trans (runK_grows _ _ _)
+        · exact (atExec_grows s).trans ((runK_grows _ _ _).trans (ih _ _))
+      · exact (atExec_grows s).trans (runK_grows _ _ _)
 
 theorem pullOf_app (s : State) (S : List Byte) (h : (pullOf s).sawEof = false) :
     pullOf (s.app S) = { pullOf s with rest := (pullOf s).rest ++ S } := by
@@ -273,9 +286,31 @@ theorem atExec_app (s : State) (S : List Byte) (h : (pullOf s).sawEof = false) :
   simp only [atExec, afterPull, pullOf_app s S h]
   rfl
 
-theorem loop_app (n m : Nat) (s sf : State) (log log' lg : List Iter) (S : List Byte)
+/-- the final iteration of a clean run pulled nothing -/
+theorem pull_text_of_none (parse : Bool → List Byte → ParseRes) (n : Nat) (buf inp : List Byte)
+    (h : (pull parse n buf inp).text = []) : buf = [] := by
+  induction n generalizing buf inp with
+  | zero => simpa [pull] using h
+  | succ n ih =>
+    rw [pull] at h
+    by_cases h1 : (nextLine inp).1 = []
+    · simpa [h1] using h
+    · simp only [h1, if_false] at h
+      by_cases h2 : (parse false (buf ++ (nextLine inp).1)).isIncomplete = true
+      · simp only [h2, if_true] at h
+        have := ih _ _ h
+        simp at this; exact this.1
+      · simp only [h2] at h
+        simp at h; exact h.1
+
+/-- ★ (general form of `prefix_monotone`, for any state: any feed kind, any aliases and options, also in
+    the middle of a run)  If the loop started in `s` ends at end of input without any reader having
+    met the end of the input in the middle of something, then with `S` appended to the input the run
+    produces the same standard output and the same verbose echo, followed by whatever `S` adds. -/
+theorem prefix_monotone_state (n m : Nat) (s sf : State) (log log' lg : List Iter) (S : List Byte)
     (h : loop n s log = (sf, .eof, lg)) (he : sf.hitEof = false) :
-    ∃ o, (loop (n + m) (s.app S) log').1.out = o ++ sf.out := by
+    (∃ o, (loop (n + m) (s.app S) log').1.out = o ++ sf.out)
+    ∧ (∃ e, (loop (n + m) (s.app S) log').1.echo = sf.echo ++ e) := by
   induction n generalizing s log log' with
   | zero => simp [loop] at h
   | succ n ih =>
@@ -283,60 +318,106 @@ theorem loop_app (n m : Nat) (s sf : State) (log log' lg : List Iter) (S : List 
     rw [hnm]
     simp only [loop] at h
     split at h
-    · -- `Ok(None)`: the run of `P` is over; whatever the longer run does, it only adds output
+    · -- `Ok(None)`: the run of `P` is over, having pulled nothing in its last iteration; whatever the
+      -- longer run does, it only adds output and echo
+      rename_i hres
       simp only [Prod.mk.injEq] at h
-      obtain ⟨o, ho⟩ := (loop_grows (n + m + 1) (s.app S) log').1
-      refine ⟨o, ?_⟩
-      rw [ho, ← h.1]; rfl
+      have hempty : (pullOf s).text = [] := by
+        have : sf.hitEof = (s.hitEof || !(pullOf s).text.isEmpty) := by rw [← h.1]
+        rw [he] at this
+        cases ht : (pullOf s).text with
+        | nil => rfl
+        | cons x xs => simp [ht] at this
+      obtain ⟨⟨o, ho⟩, _, ⟨e, hec⟩⟩ := loop_grows (n + m + 1) (s.app S) log'
+      refine ⟨⟨o, ?_⟩, ⟨e, ?_⟩⟩
+      · rw [ho, ← h.1]; rfl
+      · rw [hec, ← h.1]
+        show s.echo ++ e = echoOf s (pullOf s).text ++ e
+        rw [hempty]
+        unfold echoOf
+        split
+        · have : toBytes (toChars []) = [] := rfl
+          rw [this]; simp
+        · rfl
     · simp at h
     · simp at h
-    · rename_i cs bodies hres
+    · rename_i cs hres
       split at h
       · rename_i hfin
-        have hs2 : (runK bodies execFuel (cmds cs) (atExec s)).1.hitEof = false := by
-          cases hh : (runK bodies execFuel (cmds cs) (atExec s)).1.hitEof with
-          | false => rfl
-          | true =>
-            have := (loop_grows n _ (log ++ [iterOf s])).2 hh
-            rw [h] at this
-            rw [he] at this; exact absurd this (by simp)
-        have hs1 : (atExec s).hitEof = false := by
-          cases hh : (atExec s).hitEof with
-          | false => rfl
-          | true =>
-            have := (runK_grows bodies execFuel (cmds cs) (atExec s)).2 hh
-            rw [hs2] at this; exact absurd this (by simp)
-        have hsaw : (pullOf s).sawEof = false := by
-          cases hh : (pullOf s).sawEof with
-          | false => rfl
-          | true => simp [atExec, hh] at hs1
-        have hres' : (pullOf (s.app S)).res = .ok cs bodies := by
-          rw [pullOf_app s S hsaw]; exact hres
-        simp only [loop, hres', atExec_app s S hsaw, runK_app bodies execFuel (cmds cs) _ S hs2, hfin,
-          if_true]
-        exact ih _ _ _ h
+        split at h
+        · simp at h
+        · rename_i hab
+          have hs2 : (runK execFuel (cmds cs) (atExec s)).1.hitEof = false := by
+            cases hh : (runK execFuel (cmds cs) (atExec s)).1.hitEof with
+            | false => rfl
+            | true =>
+              have := (loop_grows n _ (log ++ [iterOf s])).2.1 hh
+              rw [h] at this
+              rw [he] at this; exact absurd this (by simp)
+          have hs1 : (atExec s).hitEof = false := by
+            cases hh : (atExec s).hitEof with
+            | false => rfl
+            | true =>
+              have := (runK_grows execFuel (cmds cs) (atExec s)).2.1 hh
+              rw [hs2] at this; exact absurd this (by simp)
+          have hsaw : (pullOf s).sawEof = false := by
+            cases hh : (pullOf s).sawEof with
+            | false => rfl
+            | true => simp [atExec, hh] at hs1
+          have hres' : (pullOf (s.app S)).res = .ok cs := by
+            rw [pullOf_app s S hsaw]; exact hres
+          simp only [loop, hres', atExec_app s S hsaw, runK_app execFuel (cmds cs) _ S hs2, hfin,
+            if_true, app_aborted, hab]
+          exact ih _ _ _ h
       · simp at h
+
+theorem loop_app (n m : Nat) (s sf : State) (log log' lg : List Iter) (S : List Byte)
+    (h : loop n s log = (sf, .eof, lg)) (he : sf.hitEof = false) :
+    ∃ o, (loop (n + m) (s.app S) log').1.out = o ++ sf.out :=
+  (prefix_monotone_state n m s sf log log' lg S h he).1
 
 /-- ★ `P` is a complete prefix when its own run ends at end of input without any reader having met
     the end of the input in the middle of something (a command line, a `read`, a `cat`).  Then the
-    trace of `P ++ S` extends the trace of `P`, whatever `S` is — in particular when `S` starts with
-    a syntax error: the earlier lines have taken effect. -/
+    trace of `P ++ S` extends the trace of `P`, and so does what `set -v` echoed, whatever `S` is —
+    in particular when `S` starts with a syntax error: the earlier lines have taken effect. -/
 theorem prefix_monotone (shared : Bool) (P S data : List Byte)
     (hend : (run shared P data).2.1 = .eof) (hclean : (run shared P data).1.hitEof = false) :
-    ∃ t, traceOf (run shared (P ++ S) data) = traceOf (run shared P data) ++ t := by
+    (∃ t, traceOf (run shared (P ++ S) data) = traceOf (run shared P data) ++ t)
+    ∧ (∃ e, (run shared (P ++ S) data).1.echo = (run shared P data).1.echo ++ e) := by
   have hfuel : (P ++ S).length + 2 = (P.length + 2) + S.length := by
     simp only [List.length_append]; omega
-  obtain ⟨o, ho⟩ := loop_app (P.length + 2) S.length (initState shared P data)
+  obtain ⟨⟨o, ho⟩, ⟨e, hec⟩⟩ := prefix_monotone_state (P.length + 2) S.length (initState shared P data)
     (run shared P data).1 [] [] (run shared P data).2.2 S
     (by simp only [run]; rw [show loop (P.length + 2) (initState shared P data) [] = run shared P data from rfl]
         rcases hr : run shared P data with ⟨a, b, c⟩
         rw [hr] at hend; simp at hend; simp [hend])
     hclean
-  refine ⟨o.reverse, ?_⟩
-  simp only [traceOf]
   have : run shared (P ++ S) data = loop (P.length + 2 + S.length) ((initState shared P data).app S) [] := by
     simp only [run, hfuel]; rfl
-  rw [this, ho, List.reverse_append]
+  refine ⟨⟨o.reverse, ?_⟩, ⟨e, ?_⟩⟩
+  · simp only [traceOf]
+    rw [this, ho, List.reverse_append]
+  · rw [this, hec]
+
+/-- the same for `sh file` (the script read from its own descriptor, echoed under `set -v`) -/
+theorem prefix_monotone_file (P S data : List Byte)
+    (hend : (runFile P data).2.1 = .eof) (hclean : (runFile P data).1.hitEof = false) :
+    (∃ t, traceOf (runFile (P ++ S) data) = traceOf (runFile P data) ++ t)
+    ∧ (∃ e, (runFile (P ++ S) data).1.echo = (runFile P data).1.echo ++ e) := by
+  have hfuel : (P ++ S).length + 2 = (P.length + 2) + S.length := by
+    simp only [List.length_append]; omega
+  obtain ⟨⟨o, ho⟩, ⟨e, hec⟩⟩ := prefix_monotone_state (P.length + 2) S.length (initStateFile P data)
+    (runFile P data).1 [] [] (runFile P data).2.2 S
+    (by simp only [runFile]; rw [show loop (P.length + 2) (initStateFile P data) [] = runFile P data from rfl]
+        rcases hr : runFile P data with ⟨a, b, c⟩
+        rw [hr] at hend; simp at hend; simp [hend])
+    hclean
+  have : runFile (P ++ S) data = loop (P.length + 2 + S.length) ((initStateFile P data).app S) [] := by
+    simp only [runFile, hfuel]; rfl
+  refine ⟨⟨o.reverse, ?_⟩, ⟨e, ?_⟩⟩
+  · simp only [traceOf]
+    rw [this, ho, List.reverse_append]
+  · rw [this, hec]
 
 /-- non-vacuity (kept tiny: the kernel evaluates lexer, parser and loop): `:` + newline is a complete
     prefix.  The correspondence run exercises the hypotheses on every generated script: the harness
